@@ -95,6 +95,11 @@ where
             .map_err(|err| VerifierError::ProofDeserializationError(err.to_string()))?;
 
         // --- parse trace and constraint queries -------------------------------------------------
+        if num_unique_queries == 0 {
+            return Err(VerifierError::ProofDeserializationError(
+                "number of unique queries must be greater than zero".to_string(),
+            ));
+        }
         let trace_queries =
             TraceQueries::<E, H, V>::new(trace_queries, air, num_unique_queries as usize)?;
         let constraint_queries = ConstraintQueries::<E, H, V>::new(
